@@ -7,7 +7,8 @@
     the number of nodes, that is sufficient for ANY node vector (dangling keys, empty graph, cycles
     through named or unnamed nodes, sharing, arbitrary logical types and names). *)
 From Coq Require Import List NArith.
-Require Import Base Schema Json Parse CanonicalForm SchemaJson Freeze SchemaTextProofs SchemaTotalProofs.
+Require Import Base Schema Sval Ser Target Reader De Json Parse CanonicalForm SchemaJson Freeze SchemaTextProofs SchemaTotalProofs.
+Require Import RecordProofs DeSafetyProofs SerSafetyProofs.
 Require Wf.
 Import ListNotations.
 
@@ -33,6 +34,25 @@ Theorem C19_freeze_keys : forall fuel g S fp js, freeze_built fuel g = Ok (S, fp
   length S = length g /\ (0 < length S)%nat /\
   forall f, In f S -> forallb (fun k => Nat.ltb k (length S)) (Wf.keys_of f) = true.
 Proof. exact freeze_built_keys_in_range. Qed.
+
+(* "whenever freezing succeeds the resulting schema can be used to serialize and deserialize safely":
+   for EVERY graph freeze accepts (also those the parser would have rejected: unions inside unions,
+   duplicate or arbitrary names, record cycles built through the API) the deserializer never panics
+   on any input, target and limits; the serializer never panics on any value (sval_wf: the caller
+   respects serde's key-before-value protocol; pool_ok: what every earlier call leaves behind, C14);
+   and the dynamically typed / ignoring consumer terminates with Ok or Err within the explicit
+   bound of C04 (depth limits still prevent runaway recursion) *)
+Theorem C19_use_safe : forall fuel g S fp js, freeze_built fuel g = Ok (S, fp, js) ->
+  schema_keys_okb S = true /\
+  (forall cfg fuel' t rs p, de_datum fuel' S cfg t rs <> Panic p) /\
+  (forall slow v p, sval_wf v = true -> to_datum S slow v <> Panic p) /\
+  (forall n v st p, In n S -> sval_wf v = true -> pool_ok st -> fst (ser S n v st) <> Panic p) /\
+  (forall cfg fuel' t rs,
+     (c_max_seq cfg < 2 ^ 64 - 1)%N -> t = TAny \/ t = TIgnored ->
+     (work_bound S cfg (c_depth cfg) (blen (rd_inp rs)) <= fuel')%nat ->
+     (exists d r, de_datum fuel' S cfg t rs = Ok (d, r)) \/ (exists e, de_datum fuel' S cfg t rs = Err e)).
+Proof. exact frozen_schema_safe. Qed.
+Check freeze_accepts_union_in_union.
 
 (* the record-cycle check enters every node at most once (it used to be exponential) *)
 Theorem C19_cyclecheck_linear : forall g n, check_for_cycles g = Some n -> (n <= N.of_nat (length g))%N.
